@@ -156,6 +156,11 @@ func registerIntrinsics(e *Engine) {
 		fr.i.ps.reach = append(fr.i.ps.reach, mustStr(a[0], "Reach label"))
 		return nil
 	}
+	in["zz.MapOrderGlobal"] = func(fr *frame, a []value) value {
+		fr.i.ps.mapOrder = a[0].(bool)
+		fr.i.ps.orderGlobalOnly = true
+		return nil
+	}
 	in["zz.MapOrder"] = func(fr *frame, a []value) value { fr.i.ps.mapOrder = a[0].(bool); return nil }
 	in["zz.Note"] = func(fr *frame, a []value) value {
 		v := a[1]
@@ -198,6 +203,20 @@ func registerIntrinsics(e *Engine) {
 	in["fmt.Errorf"] = func(fr *frame, a []value) value {
 		msg := sprintf(fr, a)
 		return fr.i.newError(msg)
+	}
+	in["errors.As"] = func(fr *frame, a []value) value {
+		// target is a pointer to a variable of some type: succeed when the error's dynamic type matches
+		errv := a[0].(iface)
+		tgt := a[1].(iface)
+		pt, ok := tgt.t.Underlying().(*types.Pointer)
+		if !ok || errv.t == nil {
+			return false
+		}
+		if types.Identical(errv.t, pt.Elem()) {
+			*tgt.v.(*value) = errv.v
+			return true
+		}
+		return false
 	}
 	in["fmt.Sprint"] = func(fr *frame, a []value) value {
 		var parts []value
@@ -615,6 +634,9 @@ func (i *interpreter) format(fr *frame, f value, args []value) value {
 			continue
 		}
 		// flags/width are not used by the repository's format strings
+		if verb == 'w' {
+			verb = 'v'
+		}
 		if strings.IndexByte("sdtvfqc", verb) < 0 {
 			panic(unsupported{fmt.Sprintf("format verb %%%c", verb)})
 		}
